@@ -627,6 +627,43 @@ end
 /-- the text frame `ws(x)` puts on the wire (none: nothing well-formed is sent) -/
 def send (scalars : Bool) (v : KVal) : Option (List Char) := (encode scalars v).map render
 
+/-! ### send histories: a program amends one dictionary in place and sends it several times
+    (`NetworkClient.call` encodes in the caller's thread, the io loop only transmits the text) -/
+
+inductive SendTiming
+  | atCall       -- the code: `encode_message(msg)` inside `call`, before anything is queued
+  | atFlush      -- the variant that queues the live object and encodes when the io loop gets to it
+deriving DecidableEq, Repr
+
+inductive SOp
+  | set (k : String) (v : KVal)      -- `d,k,,v` (in place)
+  | send                             -- `c(d)`
+
+def dset (d : List (String × KVal)) (k : String) (v : KVal) : List (String × KVal) :=
+  if d.any (fun p => p.1 == k) then d.map (fun p => if p.1 == k then (k, v) else p) else d ++ [(k, v)]
+
+/-- the dictionary when the program has ended -/
+def finalDict (d : List (String × KVal)) : List SOp → List (String × KVal)
+  | [] => d
+  | .set k v :: ops => finalDict (dset d k v) ops
+  | .send :: ops => finalDict d ops
+
+/-- the frames the peer records when the io loop runs only after the program (gated loop, or the
+    program itself running on the io loop) -/
+def sendHistory (t : SendTiming) (d : List (String × KVal)) : List SOp → List (Option (List Char))
+  | [] => []
+  | .set k v :: ops => sendHistory t (dset d k v) ops
+  | .send :: ops =>
+    (match t with
+     | .atCall => send true (.dict d)
+     | .atFlush => send true (.dict (finalDict d ops))) :: sendHistory t d ops
+
+/-- specification: the dictionary as it was at each send -/
+def statesAtSends (d : List (String × KVal)) : List SOp → List (List (String × KVal))
+  | [] => []
+  | .set k v :: ops => statesAtSends (dset d k v) ops
+  | .send :: ops => d :: statesAtSends d ops
+
 /-! ## driver (line protocol; structured arguments travel as hex of UTF-8 JSON text) -/
 
 def hexToStr (h : String) : Option String :=
